@@ -242,11 +242,47 @@ def check_sizes(chk, exes, mdl):
                 V("composing a text of %d characters into %d reports return code %s instead of the too-large code" % (textlen, cap, of[1]), rq, o, name)
     return len(cases) + len(wr), len(giant) + len(wr)
 
+def check_long(chk, exes):
+    """lists of 255 .. 65 537 items and items of up to 65 537 characters (thresholds of narrow counters): composing gives the items joined
+    by '&' / '=', dissecting that text gives the list back with the right count; judged on the implementation alone (all characters are
+    'a'..'z', never escaped)"""
+    quick = chk.tier == "quick"
+    counts = (255, 256, 257, 32768, 65536, 65537) if quick else (255, 256, 257, 4096, 32767, 32768, 65535, 65536, 65537, 131073)
+    cases = []
+    for n in counts:
+        cases.append(([("a", "b")] * n, "many two-character items"))
+        cases.append(([("k" * n, "v" * n)], "one item with a long key and value"))
+        cases.append(([("x", None)] * (n - 1) + [("y" * n, "")], "value-less items, a long last key with an empty value"))
+    nreq = 0
+    for name in (("A", "W") if quick else ("A", "W", "A_asan")):
+        rq1 = []; want = []
+        for l, _ in cases:
+            f = "%d%s" % (len(l), "".join(" %s %s" % (enc([ord(c) for c in k]), "-" if v is None else enc([ord(c) for c in v])) for k, v in l))
+            rq1.append("cmalloc 1 0 0 %d %s" % (len(l) % 2, f))
+            want.append("&".join(k + ("" if v is None else "=" + v) for k, v in l))
+        out1 = qflib.run_lines(exes[name], rq1, chunks=min(lib.NCPU, len(rq1))); nreq += len(rq1)
+        rq2 = ["dissect 1 0 0 %d %s" % (i % 4, enc([ord(c) for c in w])) for i, w in enumerate(want)]
+        out2 = qflib.run_lines(exes[name], rq2, chunks=min(lib.NCPU, len(rq2))); nreq += len(rq2)
+        for (l, what), w, r1, o1, r2, o2 in zip(cases, want, rq1, out1, rq2, out2):
+            info = {"request": r1[:90] + " ...", "list": "%d items (%s)" % (len(l), what), "build": name}
+            f1 = o1.split()
+            if len(f1) != 4 or f1[1] != "0" or f1[3] != "out=0" or (dec(f1[2]) or []) != [ord(c) for c in w]:
+                chk.violation("composing a long list: failure, wrong text (%d characters expected) or blocks outstanding" % len(w), dict(info, impl=o1[:160])); continue
+            f2 = o2.split()
+            items = f2[4:-1]
+            exp = [x for k, v in l for x in (enc([ord(c) for c in k]), "-" if v is None else enc([ord(c) for c in v]))]
+            if len(f2) < 5 or f2[1] != "0" or f2[2] != str(len(l)) or f2[3] != str(len(l)) or f2[-1] != "out=0" or items != exp:
+                chk.violation("dissecting the composed text of a long list does not give the list back (item count %s / %s, expected %d)" % (f2[2] if len(f2) > 2 else "?", f2[3] if len(f2) > 3 else "?", len(l)),
+                              dict(info, request=r2[:90] + " ...", impl=o2[:160]))
+    chk.cov["evaluations"] += nreq
+    return nreq
+
 # ---------------------------------------------------------------------------------- the check
 def run(chk):
     proofs = lib.check_proofs(PID)
     exes, mdl = builds()
     quick = chk.tier == "quick"
+    check_long(chk, exes)
     # ---- size arithmetic near INT_MAX: the former witnesses (corpus/C17) run first
     nbig, ngiant = check_sizes(chk, exes, mdl)
     lists = gen_lists(chk)
